@@ -21,7 +21,7 @@ EXPLANATION = ("Array_<int,unsigned> and Array_<Counted,unsigned>: for every val
                "out-of-bounds access, no exception; for Counted every element is constructed and destroyed exactly once (alive word per "
                "slot + constructor/destructor balance). calcNewCapacityForGrowthBy for Array_<char,unsigned char>: all 8-bit "
                "(capacity,n) pairs, and for unsigned index: all 32-bit pairs.")
-BOUNDS = ("quick: capacity <= 3 (Counted: <= 2), inserted/assigned count <= 2; thorough: capacity <= 6, count <= 4 for int (one cbmc job per pre-state "
+BOUNDS = ("quick: capacity <= 3, inserted/assigned count <= 2 for int; capacity <= 2, count <= 1 for Counted (9 of the 19 operations); thorough: capacity <= 6, count <= 4 for int (one cbmc job per pre-state "
           "capacity for the heavy operations), capacity <= 4, count <= 2 for Counted; element values unrestricted (32-bit nondet); "
           "unwind 26 with unwinding assertions; heap blocks <= 16 elements (ALLOC-BOUND assertion); index type unsigned only")
 NOT_COVERED = ("operation HISTORIES longer than one step (covered only through the inductive step from an arbitrary valid state, i.e. "
@@ -36,7 +36,7 @@ LEVEL_NOTE = ("Trusted: clang-14 -O1 IR, engine/ir2c (validated per run by gcc(g
 OPS = ["insert_n", "insert_1", "insert_range", "erase_range", "erase", "eraseFast", "push_back", "pop_back", "resize", "resize_v",
        "reserve", "assign_n", "assign_range", "shrink_to_fit", "clear", "swap", "copy_construct", "copy_assign", "destruct"]
 HEAVY = {"insert_n", "insert_range", "erase_range", "swap", "copy_assign", "resize", "resize_v", "assign_n", "reserve"}
-QUICK_COUNTED = ["insert_n", "insert_range", "erase_range", "eraseFast", "push_back", "resize_v", "assign_n", "shrink_to_fit", "copy_assign", "destruct"]
+QUICK_COUNTED = ["insert_n", "insert_range", "erase_range", "eraseFast", "push_back", "resize_v", "assign_n", "shrink_to_fit", "destruct"]
 DESCR = {
     "insert_n": "insert(p,n,v): contents == model (gap of n copies of v at p), returns p", "insert_1": "insert(p,v)",
     "insert_range": "insert(p,first,last) from a disjoint source range", "erase_range": "erase(first,last) returns first",
@@ -63,7 +63,7 @@ def jobs_for(tier):
         jobs.append(dict(base, name=name, function="h_" + op, defines=d, op=op, et=et, bounds=(mc, mn, lo)))
     if tier == "quick":
         for op in OPS: add("INT", op, 3, 2)
-        for op in QUICK_COUNTED: add("COUNTED", op, 2, 2)
+        for op in QUICK_COUNTED: add("COUNTED", op, 2, 1)
     else:
         for op in OPS:
             if op in HEAVY:
@@ -111,6 +111,7 @@ def _main(tier, seed):
     log("  translator validation: %d native differential runs (%d informative), all agree: %s" % (len(ctx.validation), informative, all(v["agree"] for v in ctx.validation)))
     if informative < 40: ctx.errors.append("translator validation has too few informative runs (%d)" % informative)
 
+    ctx.account_native_failures()
     jobs = jobs_for(tier)
     res = ctx.run_jobs(jobs)
     viol = ctx.account_jobs(res, lambda j: "%s %s" % (j["et"], DESCR[j["op"]]))
